@@ -191,8 +191,7 @@ impl Space for DayWalk {
             None
         };
         for i in lo..hi {
-            out.index = i;
-            out.evals += 1;
+            out.begin(i);
             if cur.day == 0 && cur != Odo::epoch() {
                 panic!("R1 anchor self-check failed");
             }
